@@ -41,7 +41,8 @@ from ..core import (AnalysisError, call_name, const_str, find_calls, is_name,
                     walk)
 from ..normalize import expand_locals
 from ..lib_C14 import (COPIER, CORE, EXPORT, FB, WRITER, Mini, Model, USet,
-                       basin_loop, dewalrus, expand_partials, ifexp_to_if,
+                       basin_loop, dewalrus, expand_partials,
+                       expand_self_aliases, ifexp_to_if,
                        inline_module_helpers,
                        Unknown, Unordered, base_names, cfg_ids,
                        classes_in, edge_guarded, enclosing_conditions,
@@ -333,7 +334,7 @@ def r72(ctx, repo):
         hname, seed, mname = pending.pop(0)
         m = method(cls, hname)
         if m is not None:
-            m = ifexp_to_if(m)
+            m = ifexp_to_if(expand_self_aliases(m))
         if m is None:
             raise AnalysisError(f"BasinProxyFeature.{mname} lost")
         # names derived from the map (for a helper: the parameters that
@@ -481,9 +482,12 @@ def r72(ctx, repo):
                            label=f"index applied to map {short(n, 40)}")
                 elif isinstance(n, ast.Assign) and txt(n.value) == MAP:
                     fn = m
-                    ok = any(pol and "slice(None)" in txt(t) and idx in
-                             names_in(t)
-                             for t, pol in enclosing_conditions(n, fn))
+                    ok = False
+                    for t, pol in enclosing_conditions(n, fn):
+                        tt = expand_locals(fn, t)    # named conditions
+                        if pol and "slice(None)" in tt and idx in names_in(
+                                ast.parse(tt, mode="eval")):
+                            ok = True
                     ctx.ob("R7.2", ok,
                            "the whole map is used only for the full slice"
                            if ok else "the whole map is used although an "
